@@ -9,4 +9,4 @@ CONSTANTS
   AdvKinds <- AllAdv
   MaxAdversarial = 1
   StrictVerify = TRUE
-INVARIANTS Emit TypeOK
+INVARIANTS Emit TypeOK StaticRulesHold MembersHashMatches SignaturesRecover GroupMembersMatch ValidWheneverSubmitted GateImpliesThresholds NoSubmissionBelowQuorum OwnSignatureIncluded WalletMatches HonestAccepted
